@@ -143,6 +143,27 @@ def load_known(prop):
     return [e for e in data.get("findings", []) if e.get("property") == prop]
 
 
+def _private_tmp():
+    """Every scratch file of this run (documents for file routes, cache directories, pristine-run pickles) lives in ONE private directory that
+    this process removes when it ends, also when workers are killed; leftovers of runs that were themselves killed are swept after 6 hours."""
+    import atexit
+    import glob
+    import shutil
+    import tempfile
+
+    base = tempfile.gettempdir()
+    for old in glob.glob(os.path.join(base, "xsv_run_*")):
+        try:
+            if time.time() - os.path.getmtime(old) > 6 * 3600:
+                shutil.rmtree(old, True)
+        except OSError:
+            pass
+    path = tempfile.mkdtemp(prefix="xsv_run_")
+    atexit.register(shutil.rmtree, path, True)
+    os.environ["TMPDIR"] = path
+    tempfile.tempdir = path
+
+
 def main():
     ap = argparse.ArgumentParser()
     ap.add_argument("prop")
@@ -156,6 +177,7 @@ def main():
     args = ap.parse_args()
     prop = args.prop.upper()
     tier = args.tier if args.tier in ("quick", "thorough") else "quick"
+    _private_tmp()
     seed = int(os.environ.get("VERIF_SEED", "0") or 0)
     module = f"harness.{prop.lower()}"
 
